@@ -35,7 +35,7 @@ class ContinueSig(Exception):
 
 
 class Obligation(object):
-    __slots__ = ('pc', 'goal', 'kind', 'descr', 'where', 'path', 'inputs', 'heap')
+    __slots__ = ('pc', 'goal', 'kind', 'descr', 'where', 'path', 'inputs', 'heap', 'seq')
 
     def __init__(self, pc, goal, kind, descr, where, path, inputs=None):
         self.pc = pc
@@ -46,6 +46,7 @@ class Obligation(object):
         self.path = path
         self.inputs = inputs
         self.heap = None
+        self.seq = False
 
     def key(self):
         return '%s|%s|%s' % (self.kind, self.where, self.descr)
@@ -97,6 +98,7 @@ class Brancher(object):
         return bool(self.worklist)
 
     oracle = None
+    in_process = None
     shard = None
     shard_used = False
 
@@ -119,7 +121,7 @@ class Brancher(object):
             self.di += 1
             return d
         feas = []
-        if len(alts) > 6 and all(a is not None for a in alts):
+        if len(alts) > 6 and all(a is not None for a in alts) and (self.in_process is None or self.in_process()):
             # enumerate feasible alternatives through models
             self.feas_checks += 1
             s = z3.Solver()
